@@ -589,7 +589,7 @@ def model_input(c, flags):
         # model answers for process_headers only
         import email.header
         import http.cookies
-        dh = [0, []]
+        dh = [0, [], None]
         if '=?' in v:
             atoms, o = outcome('decode_header', lambda: email.header.decode_header(v))
             if o is not None:
@@ -602,7 +602,12 @@ def model_input(c, flags):
                     if isb and cs is not None:
                         oo = outcome('bytes.decode', lambda: atom.decode(cs))[1]
                     al.append([isb, 0 if cs is None else 1 if cs == '' else 2, oo])
-                dh = [0, al]
+                # the final decodedvalue.encode('utf-8') of decode_TEXT (a lone surrogate is refused)
+                eo = None
+                if all(a[2] is None for a in al):
+                    txt = ''.join(a.decode(cs or 'ISO-8859-1') if isinstance(a, bytes) else a for a, cs in atoms)
+                    eo = outcome('str.encode', lambda: txt.encode('utf-8'))[1]
+                dh = [0, al, eo]
         is_cookie = name.title() == 'Cookie'
         ck = outcome('SimpleCookie.load', lambda: http.cookies.SimpleCookie().load(v))[1] if is_cookie else None
         return [1, flags, is_cookie, v, dh, ck]
